@@ -139,6 +139,7 @@ Merge(pol, full, part) ==
 \* client-visible value (set_sum tags are internal: reads strip them)
 Visible(pol, v) == IF pol = "set_sum" THEN v[2] ELSE v
 VisibleKV(pol, kv) == [k \in DOMAIN kv |-> Visible(pol, kv[k])]
+VisibleOpt(pol, o) == IF o = None THEN None ELSE Some(Visible(pol, o[1]))
 
 ------------------------------------------------------------------------
 (* sizes: Sigma len(key) + len(value); VLen is the encoded length of an abstract value *)
